@@ -39,7 +39,7 @@ def observe(sess, hist, op, exc, valid, reason, pre, acc):
         missing = sorted(set(model.live) - set(types))
         clause = "removed-kind-present" if extra else ("block-lost" if missing else "duplicate-kind")
         raise core.Violation(clause, kcommon.sig(PROP, clause, op, cfg), None,
-                             f"{where}: file has {[R.NAMES[t] for t in types]}, history says {[R.NAMES[t] for t in model.live]}")
+                             f"{where}: file has {[R.NAMES.get(t, t) for t in types]}, history says {[R.NAMES.get(t, t) for t in model.live]}")
     for i, e in enumerate(p["entries"]):
         if e["type"] == 0:
             continue
@@ -49,7 +49,7 @@ def observe(sess, hist, op, exc, valid, reason, pre, acc):
         got = R.payload(data, e)
         if got != r.payload:
             raise core.Violation("payload-changed", kcommon.sig(PROP, "payload-changed", op, cfg, tag), None,
-                                 f"{where}: slot {i} {R.NAMES[e['type']]} stored bytes differ from what was given "
+                                 f"{where}: slot {i} {R.NAMES.get(e['type'], e['type'])} stored bytes differ from what was given "
                                  f"(size {len(got)} vs {len(r.payload)}, sha {hashlib.sha1(got).hexdigest()[:8]})")
         if e["format"] != r.format:
             raise core.Violation("format-changed", kcommon.sig(PROP, "format-changed", op, cfg, tag), None,
@@ -57,20 +57,20 @@ def observe(sess, hist, op, exc, valid, reason, pre, acc):
         if e["comment"] != r.comment:
             clause = "comment-not-kept" if (touched and op[0] in ("replace", "set")) else "comment-changed"
             raise core.Violation(clause, kcommon.sig(PROP, clause, op, cfg, tag), None,
-                                 f"{where}: slot {i} {R.NAMES[e['type']]} comment {e['comment']!r:.60} vs {r.comment!r:.60}")
+                                 f"{where}: slot {i} {R.NAMES.get(e['type'], e['type'])} comment {e['comment']!r:.60} vs {r.comment!r:.60}")
         if (e["ctime"], e["mtime"]) != (r.ctime, r.mtime):
             raise core.Violation("dates-changed", kcommon.sig(PROP, "dates-changed", op, cfg, tag), None,
-                                 f"{where}: slot {i} {R.NAMES[e['type']]} dates {(e['ctime'], e['mtime'])} vs {(r.ctime, r.mtime)}")
+                                 f"{where}: slot {i} {R.NAMES.get(e['type'], e['type'])} dates {(e['ctime'], e['mtime'])} vs {(r.ctime, r.mtime)}")
         if e["type"] in R.WRITABLE:
             try:
                 blk = sess.tdf.get_block(specs.lib().block.BlockType(e["type"]))
                 back = specs.lib_encode(blk)
             except Exception as x:  # noqa: BLE001
                 raise core.Violation("read-raises", kcommon.sig(PROP, "read-raises", op, cfg, type(x).__name__), None,
-                                     f"{where}: get_block({R.NAMES[e['type']]}) -> {type(x).__name__}: {x}")
+                                     f"{where}: get_block({R.NAMES.get(e['type'], e['type'])}) -> {type(x).__name__}: {x}")
             if back != r.payload:
                 raise core.Violation("read!=stored", kcommon.sig(PROP, "read!=stored", op, cfg, tag), None,
-                                     f"{where}: get_block({R.NAMES[e['type']]}) returns content that encodes differently "
+                                     f"{where}: get_block({R.NAMES.get(e['type'], e['type'])}) returns content that encodes differently "
                                      f"from the stored block")
             acc.n["block_reads"] += 1
 
@@ -78,9 +78,15 @@ def observe(sess, hist, op, exc, valid, reason, pre, acc):
 _shard = kcommon.make_run(__name__, "observe")
 
 
+_chain = kcommon.make_chain_run(__name__, "observe")
+
+
 def run(tier):
-    return kcommon.run_configs(__name__, tier)
+    acc = kcommon.run_configs(__name__, tier)
+    # straight-line histories in ONE context with reads in between (read-side hidden state)
+    acc.merge(core.pmap(__name__, "_chain", [c.to_witness() for c in kcommon.chain_configs(tier)]))
+    return acc
 
 
 def replay(w):
-    return kcommon.replay(w, observe)
+    return kcommon.replay_any(w, observe)
